@@ -258,7 +258,9 @@ func rolePoolReader(fn *ssa.Function) bool {
 func rolePoolSerialiser(fn *ssa.Function) bool {
 	return recvNamed(fn, "conn") && callsAny(fn, pBinprot+".Write*")
 }
-func rolePoolReconnect(fn *ssa.Function) bool { return recvNamed(fn, "conn") && callsAny(fn, "net.Dial") }
+func rolePoolReconnect(fn *ssa.Function) bool {
+	return recvNamed(fn, "conn") && callsAny(fn, "net.Dial")
+}
 func rolePoolRecovery(fn *ssa.Function) bool {
 	return recvNamed(fn, "conn") && callsAny(fn, "builtin.close") && !callsAny(fn, pBinprot+".ReadResponseHeader")
 }
